@@ -210,6 +210,7 @@ impl Ctx {
                 let fails = &fails;
                 let prop = &prop;
                 sc.spawn(move || {
+                    crate::core::IS_DRIVER.with(|d| d.set(true));
                     let cfg = Config {
                         cases: per as u32,
                         rng_seed: RngSeed::Fixed(mix(sub_seed, w as u64 + 1)),
@@ -480,6 +481,7 @@ pub fn replay_one<S: SubCheck>(s: &S, prop: &str, case: &Value, path: &str) -> i
             return 2;
         }
     };
+    crate::core::IS_DRIVER.with(|d| d.set(true));
     // MT cases are not deterministic: re-run several times.
     let reps = if s.substrate().contains("MT") { 200 } else { 3 };
     for _ in 0..reps {
